@@ -183,9 +183,12 @@ def to_mont_lemma(sess, run, funcs):
     ins = coeff_inputs(E)
     x = ins['vec_a']
     p = z3.And(*pre, x > -67058539, x < 67058539)
-    sess.discharge_obligations('to_mont closure for every |x| < 67058539', obl, p, enc='int')
-    sess.discharge('to_mont closure: |out| < 2q', z3.Or(out.t >= 2 * Q, out.t <= -2 * Q), pre=p, enc='int', fn=name)
-    sess.discharge('to_mont closure: out == x * 2^32 (mod q)', (x * (1 << 32) - out.t) % Q != 0, pre=p, enc='int', fn=name)
+    def cb(qname, vals, rec):
+        xv = next((v for k, v in vals.items() if k.startswith('in:vec_a')), 0)
+        run.extra.setdefault('scalar_cases', []).append(['partial_reduce64', [int(xv) << 32], qname])
+    sess.discharge_obligations('to_mont closure for every |x| < 67058539', obl, p, enc='int', on_sat=cb)
+    sess.discharge('to_mont closure: |out| < 2q', z3.Or(out.t >= 2 * Q, out.t <= -2 * Q), pre=p, enc='int', fn=name, on_sat=cb)
+    sess.discharge('to_mont closure: out == x * 2^32 (mod q)', (x * (1 << 32) - out.t) % Q != 0, pre=p, enc='int', fn=name, on_sat=cb)
 
 
 def mat_vec_lemma(sess, run, funcs):
@@ -418,6 +421,20 @@ def run(run, scr, tier, seed, only=None):
     except e2.Refuse as e:
         run.inconclusive.append('E2 translator refused: ' + str(e))
         admissible, TB = None, None
+    # kernel-level counterexamples of the closure lemmas (partial_reduce64 through to_mont): native scalar replay
+    if run.extra.get('scalar_cases'):
+        from e2run import run_scalar_cases
+        cases_s = [(n, a) for n, a, _ in run.extra['scalar_cases']]
+        for rel in (False, True):
+            nat, ocs, outs = run_scalar_cases(scr, cases_s, release=rel)
+            badc = [(k, v) for k, v in nat.items() if not v[1]]
+            if badc:
+                k0, v0 = badc[0]
+                path = vlib.save_replay('C18', 'scalar', {'property': 'C18', 'kind': 'scalar', 'cases': [[n, list(a)] for n, a in cases_s], 'profile': 'release' if rel else 'dev'})
+                run.violation('kernel-' + k0[0], f'{k0[0]}{list(k0[1])} = {v0[0]} ({"release" if rel else "dev"}) inside its documented domain: not congruent / out of range / panics (reached through to_mont in mat_vec_mul)', path)
+                break
+        else:
+            run.inconclusive.append(f'to_mont lemma counterexample {cases_s[:2]} does not reproduce natively')
     # native part: basis premise always; overflow replay if the chain has open links
     cases = []
     if failures:
@@ -455,6 +472,17 @@ def run(run, scr, tier, seed, only=None):
 
 def replay(run, scr, path):
     p = json.load(open(path))
+    if p.get('kind') == 'scalar':
+        from e2run import run_scalar_cases
+        bad = 0
+        for rel in (False, True):
+            nat, ocs, outs = run_scalar_cases(scr, [(n, a) for n, a in p['cases']], release=rel)
+            vlib.log(f'replay ({"release" if rel else "dev"}): {nat}')
+            bad += sum(1 for v in nat.values() if not v[1])
+        if bad:
+            vlib.log(f'VIOLATION property=C18 replay={path}')
+            return 1
+        return 0
     if p.get('kind') == 'basis':
         oc, out = vlib.native_test(scr, replay_source([]), 'c18_basis_premise', release=True)
         res = {'release': oc}
